@@ -51,6 +51,21 @@ pub fn handle(toks: &[&str]) -> String {
                 Err(e) => format!("Err:{}", format!("{e:?}").split('(').next().unwrap()),
             }
         }
+        ["WNS", parts] => {
+            let ps: Vec<&str> = parts.split(',').collect();
+            let mut msg = vec![0u8, 0, 0, 0, (ps.len() >> 8) as u8, (ps.len() & 255) as u8, 0, 0, 0, 0, 0, 0];
+            for h in &ps {
+                msg.extend_from_slice(&bytes_of_hex(h));
+                msg.extend_from_slice(&[0, 1, 0, 1]);
+            }
+            match Message::from_octets(&msg) {
+                Ok(m) => format!(
+                    "Ok:{}",
+                    m.questions.iter().map(|q| show_name(&q.name)).collect::<Vec<_>>().join(",")
+                ),
+                Err(e) => format!("Err:{}", format!("{e:?}").split('(').next().unwrap()),
+            }
+        }
         ["ZG", apexes, n] => {
             let mut zs = Zones::new();
             for a in apexes.split(';') {
